@@ -892,3 +892,85 @@ package websocket
 //@ trusted
 //@ modifies mem(p)
 //@ ensures 0 <= n && n <= len(p)
+
+// ---------------------------------------------------------------------------
+// client.go
+
+//@ ghostfield Dialer.g_net int
+
+//@ func field:Dialer.Proxy
+//@ params d req
+//@ results u err
+//@ trusted
+//@ modifies d.g_net
+//@ func dynamic:netDial
+//@ params ctx network addr
+//@ results conn err
+//@ trusted
+//@ modifies
+//@ ensures imp(err == nil, conn != nil && !conn.g_closed)
+//@ func dynamic:cancel
+//@ trusted
+//@ pure
+//@ func field:httptrace.ClientTrace.GetConn
+//@ params t hostPort
+//@ trusted
+//@ pure
+//@ func field:httptrace.ClientTrace.GotConn
+//@ params t info
+//@ trusted
+//@ pure
+//@ func field:httptrace.ClientTrace.GotFirstResponseByte
+//@ params t
+//@ trusted
+//@ pure
+//@ func field:httptrace.ClientTrace.TLSHandshakeStart
+//@ params t
+//@ trusted
+//@ pure
+//@ func field:httptrace.ClientTrace.TLSHandshakeDone
+//@ params t st err
+//@ trusted
+//@ pure
+
+//@ func generateChallengeKey
+//@ tags C07 C14
+//@ assert at call:ReadFull#1[C14.freshkey]: arg0 == rand.Reader && len(arg1) == 16
+
+//@ func (*Dialer).DialContext
+//@ tags C07 C14 C15 C16 C17 C18
+//@ results conn resp err
+//@ requires imp(d != nil, d.ReadBufferSize <= 1099511627776 && d.WriteBufferSize <= 1099511627776)
+//@ bind ck,ckerr after call:generateChallengeKey#1
+//@ bind okUpg after call:tokenListContainsValue#1
+//@ bind okConn after call:tokenListContainsValue#2
+//@ bind acc after call:Get#1
+//@ bind ak after call:computeAcceptKey#1
+//@ bind nc,ncerr after call:netDial#1
+//@ bind hp,hnp after call:hostPortNoPort#1
+//@ bind rresp,rerr after call:ReadResponse#1
+//@ ghost after call:Proxy#1: d.g_net := d.g_net + 1
+//@ ghost after call:netDial#1: d.g_net := d.g_net + 1
+//@ assert at return#3[C14.scheme]: d.g_net == old(d.g_net) && conn == nil && err == errMalformedURL
+//@ assert at return#4[C14.userinfo]: d.g_net == old(d.g_net) && conn == nil && err == errMalformedURL
+//@ assert at call:Write#1[C14.reqkey]: len(req.Header["Sec-WebSocket-Key"]) == 1 && req.Header["Sec-WebSocket-Key"][0] == ck && ckerr == nil
+//@ assert at call:Write#1[C14.reqowned]: len(req.Header["Upgrade"]) == 1 && streq(req.Header["Upgrade"][0], "websocket") && len(req.Header["Connection"]) == 1 && streq(req.Header["Connection"][0], "Upgrade") && \
+//@     len(req.Header["Sec-WebSocket-Version"]) == 1 && streq(req.Header["Sec-WebSocket-Version"][0], "13") && streq(req.Method, "GET") && req.URL == u
+//@ assert at call:Write#1[C16.conn]: arg1 == netConn
+//@ assert at call:computeAcceptKey#1[C14.thiskey]: arg0 == ck
+//@ assert at call:netDial#1[C18.addr]: arg2 == hp && streq(arg1, "tcp")
+//@ assert at call:ReadResponse#1[C17.reader]: arg0 == conn.br && arg1 == req
+//@ assert at return#13[C14.bad]: conn == nil && err == ErrBadHandshake && resp == rresp && resp != nil
+//@ assert at return#16[C14.accept]: err == nil && conn != nil && rerr == nil && resp == rresp && resp.StatusCode == 101 && okUpg && okConn && streq(acc, ak)
+//@ assert at return#16[C15.client]: iff(conn.newCompressionWriter != nil, conn.newDecompressionReader != nil) && !conn.isServer
+//@ assert at return#9[C16.cleanup]: nc.g_closed && conn == nil
+//@ assert at return#10[C16.cleanup]: nc.g_closed && conn == nil
+//@ assert at return#11[C16.cleanup]: nc.g_closed && conn == nil
+//@ assert at return#12[C16.cleanup]: nc.g_closed && conn == nil
+//@ assert at return#13[C16.cleanup]: nc.g_closed && conn == nil
+//@ assert at return#14[C16.cleanup]: nc.g_closed && conn == nil
+//@ assert at return#15[C16.cleanup]: nc.g_closed && conn == nil
+//@ assert at return#16[C16.open]: !nc.g_closed && !conn.conn.g_wdl && !conn.conn.g_rdl
+//@ loop 2 invariant len(req.Header["Sec-WebSocket-Key"]) == 1 && req.Header["Sec-WebSocket-Key"][0] == ck
+//@ loop 2 invariant len(req.Header["Upgrade"]) == 1 && streq(req.Header["Upgrade"][0], "websocket") && len(req.Header["Connection"]) == 1 && streq(req.Header["Connection"][0], "Upgrade")
+//@ loop 2 invariant len(req.Header["Sec-WebSocket-Version"]) == 1 && streq(req.Header["Sec-WebSocket-Version"][0], "13") && streq(req.Method, "GET") && req.URL == u && req.Header != nil
